@@ -1983,6 +1983,12 @@ impl<'data, P: Platform> GroupActivationInputs<'data, P> {
 
         let mut should_delay_processing = false;
 
+        #[cfg(wild_verif)]
+        {
+            crate::verif::sched_point(10);
+            crate::verif::event("activate-start", group_index as u64, 0);
+        }
+
         for file in &mut group.files {
             let r = activate::<A>(&mut group.common, file, &mut group.queue, resources, scope)
                 .with_context(|| format!("Failed to activate {file}"));
@@ -1997,19 +2003,32 @@ impl<'data, P: Platform> GroupActivationInputs<'data, P> {
             }
         }
 
+        #[cfg(wild_verif)]
+        if should_delay_processing {
+            crate::verif::event("delay-push", group_index as u64, 0);
+        }
+
         if should_delay_processing {
             resources.delay_processing.push(group).unwrap();
         } else {
             group.do_pending_work::<A>(resources, scope);
         }
 
+        #[cfg(wild_verif)]
+        crate::verif::sched_point(11);
+
         let remaining = resources
             .activations_remaining
             .fetch_sub(1, atomic::Ordering::Relaxed)
             - 1;
 
+        #[cfg(wild_verif)]
+        crate::verif::event("activated", group_index as u64, remaining as u64);
+
         if remaining == 0 {
             while let Some(group) = resources.delay_processing.pop() {
+                #[cfg(wild_verif)]
+                crate::verif::event("delay-pop", group.queue.index as u64, 0);
                 group.do_pending_work::<A>(resources, scope);
             }
         }
@@ -2061,7 +2080,30 @@ fn find_required_sections<'data, A: Arch>(
     let mut errors: Vec<Error> = take(resources.errors.lock().unwrap().as_mut());
     // TODO: Figure out good way to report more than one error.
     if let Some(error) = errors.pop() {
+        #[cfg(wild_verif)]
+        crate::verif::flush_events("find-required-sections-error");
         return Err(error);
+    }
+
+    #[cfg(wild_verif)]
+    {
+        // Quiescence: every queue drained and every group's state parked in its slot.
+        for (i, slot) in resources.worker_slots.iter().enumerate() {
+            let slot = slot.lock().unwrap();
+            if !slot.work.is_empty() {
+                crate::verif::invariant_failed(&format!(
+                    "layout-traversal: group {i} has {} unhandled work items at the end",
+                    slot.work.len()
+                ));
+            }
+            if slot.worker.is_none() {
+                crate::verif::invariant_failed(&format!(
+                    "layout-traversal: group {i} is not parked at the end"
+                ));
+            }
+        }
+        crate::verif::event("quiescent", num_groups as u64, 0);
+        crate::verif::flush_events("find-required-sections");
     }
 
     let mut group_states = unwrap_worker_states(&resources.worker_slots);
@@ -2136,8 +2178,12 @@ impl<'data, P: Platform> GroupState<'data, P> {
         resources: &'scope GraphResources<'data, '_, P>,
         scope: &Scope<'scope>,
     ) {
+        #[cfg(wild_verif)]
+        crate::verif::event("run", self.queue.index as u64, 0);
         loop {
             while let Some(work_item) = self.queue.local_work.pop() {
+                #[cfg(wild_verif)]
+                crate::verif::event("handle", self.queue.index as u64, 0);
                 let file_id = work_item.file_id(resources.symbol_db);
                 let file = &mut self.files[file_id.file()];
                 if let Err(error) = file.do_work::<A>(
@@ -2147,18 +2193,28 @@ impl<'data, P: Platform> GroupState<'data, P> {
                     &mut self.queue,
                     scope,
                 ) {
+                    #[cfg(wild_verif)]
+                    crate::verif::event("abandon", self.queue.index as u64, 0);
                     resources.report_error(error);
                     return;
                 }
             }
+            #[cfg(wild_verif)]
+            crate::verif::sched_point(12);
             {
                 let mut slot = resources.worker_slots[self.queue.index].lock().unwrap();
                 if slot.work.is_empty() {
+                    #[cfg(wild_verif)]
+                    crate::verif::event("park", self.queue.index as u64, 0);
                     slot.worker = Some(self);
                     return;
                 }
+                #[cfg(wild_verif)]
+                crate::verif::event("swap", self.queue.index as u64, slot.work.len() as u64);
                 swap(&mut slot.work, &mut self.queue.local_work);
             };
+            #[cfg(wild_verif)]
+            crate::verif::sched_point(13);
         }
     }
 
@@ -2322,12 +2378,22 @@ impl<'data, P: Platform> GraphResources<'data, '_, P> {
         resources: &'scope GraphResources<'data, '_, P>,
         scope: &Scope<'scope>,
     ) {
+        #[cfg(wild_verif)]
+        crate::verif::sched_point(14);
         let worker;
         {
             let mut slot = self.worker_slots[file_id.group()].lock().unwrap();
             worker = slot.worker.take();
             slot.work.push(work);
+            #[cfg(wild_verif)]
+            crate::verif::event(
+                "push",
+                file_id.group() as u64,
+                u64::from(worker.is_some()),
+            );
         };
+        #[cfg(wild_verif)]
+        crate::verif::sched_point(15);
         if let Some(worker) = worker {
             scope.spawn(|scope| {
                 verbose_timing_phase!("Work with object");
